@@ -143,10 +143,17 @@ def cmp_str(a, b):
 
 
 class Model:
-    """Holds the mode switches (1.7.1 vs compat16)."""
+    """Holds the mode switches (1.7.1 vs compat16).  Reading `c16` records that the evaluation reached a point whose
+    behaviour is on the documented change list (`sens`), so a 1.7.1-mode run that never set it is also the 1.6-mode answer."""
 
     def __init__(self, compat16=False):
-        self.c16 = compat16
+        self._c16 = compat16
+        self.sens = False
+
+    @property
+    def c16(self):
+        self.sens = True
+        return self._c16
 
     # -- total order (jv_cmp) --
     def cmp(self, a, b):
@@ -1163,6 +1170,8 @@ class Interp(Model):
         """Run a parsed program on one input. Returns (outputs list, error value or NOERR)."""
         self.st = PathState()
         self.steps = 0
+        self.sens = False      # set when the run touched a construct on the documented 1.6 -> 1.7.1 change list
+        self.scalar_identity = False
         outs = []
         env = self.builtin_env
         for n, val in (named or {}).items():
@@ -1186,7 +1195,7 @@ class Interp(Model):
     # ---- builtins written in jq ----------------------------------------------------------------
     def _load_builtins(self):
         env = Env()
-        text = BUILTINS_JQ + (BUILTINS_JQ_16 if self.c16 else BUILTINS_JQ_171)
+        text = BUILTINS_JQ + (BUILTINS_JQ_16 if self._c16 else BUILTINS_JQ_171)
         p = Parser(text + " .")
         ast = p.parse_program()
         while ast[0] == "def":
@@ -1212,6 +1221,7 @@ class Interp(Model):
             return False
         if self.strict_equal(v, st.vap):
             if v is None or v is True or v is False:
+                self.scalar_identity = True     # jq accepts a non-path result because null/true/false are identical by value
                 return True
             raise Unsupported("path identity of equal values is not modelled")
         return False
@@ -1347,7 +1357,7 @@ class Interp(Model):
         """run_body(k2) evaluates the body; on_error(err) is called when the body raised."""
         st = self.st
         saved = st.snap()
-        if self.c16:
+        if self._c16:
             try:
                 run_body(k)
                 return
@@ -1361,6 +1371,7 @@ class Interp(Model):
                 try:
                     k(o, t)
                 except JqError as e:
+                    self.sens = True       # 1.6 would have caught this downstream error here
                     raise _Wrapped(e, me)
             try:
                 run_body(k2)
@@ -1529,8 +1540,6 @@ class Interp(Model):
             def with_key(kv, _):
                 def with_val(vv, _t):
                     if kind(kv) != "string":
-                        if self.c16:
-                            pass
                         raise err("Cannot use %s (%s) as object key" % (kind(kv), trunc_dump(kv)))
                     o2 = dict(obj)
                     o2[kv] = vv
@@ -1662,6 +1671,8 @@ class Interp(Model):
             self.ev(target.ast, target.env, v, tok, k)
             return
         if isinstance(target, Closure):
+            if key in SENSITIVE_DEFS:
+                self.sens = True
             self.call_closure(target, args, env, v, tok, k)
             return
         special = getattr(self, "sp_" + name + "_" + str(len(args)), None)
@@ -1772,6 +1783,10 @@ class Interp(Model):
                     x = x + 1
             self.ev(args[1], env, v, tok, ke)
         self.ev(args[0], env, v, tok, ks)
+
+
+# jq-coded builtins whose 1.6 and 1.7.1 definitions differ (BUILTINS_JQ_16 / BUILTINS_JQ_171)
+SENSITIVE_DEFS = {("_modify", 2), ("limit", 2), ("isempty", 1), ("any", 2), ("all", 2), ("from_entries", 0), ("walk", 1)}
 
 
 class _Fresh:
@@ -2095,8 +2110,6 @@ def make_natives(I):
                 return a * b
             if (ak == "string" and bk == "number") or (ak == "number" and bk == "string"):
                 s, n = (a, b) if ak == "string" else (b, a)
-                if ak == "number" and I.c16:
-                    pass
                 if n != n:
                     raise Unsupported("string * nan")
                 if n <= 0:
